@@ -3,6 +3,7 @@ use crate::define::*;
 use crate::descriptor::DescriptorManager;
 use crate::error::Error;
 use crate::function::InnerFunctionManager;
+use crate::keyword;
 use crate::operator::{InfixOpManager, InfixOpType, PostfixOpManager, PrefixOpManager};
 use crate::token::{DelimTokenType, Token};
 use crate::tokenizer::Tokenizer;
@@ -510,25 +511,22 @@ impl<'a> Parser<'a> {
     }
 
     fn parse_op(&mut self, exec_prec: i32, mut lhs: ExprAST<'a>) -> Result<ExprAST<'a>> {
-        let mut is_not = false;
         loop {
             if !self.tokenizer.cur_token.is_op_token() {
                 return Ok(lhs);
             }
-            if self.tokenizer.cur_token.is_not_token() {
-                is_not = true;
-                self.next()?;
-                if !self.cur_tok().is_binop_token() {
-                    return Err(Error::ExpectBinOpToken);
-                }
-                continue;
-            }
             if self.tokenizer.cur_token.is_question_mark() {
                 return Ok(lhs);
             }
-            let (l_bp, r_bp) = self.get_token_precidence();
+            // `x not OP y`: OP decides the grouping, so look past the `not` before
+            // consuming anything.
+            let is_not = self.tokenizer.cur_token.is_not_token();
+            let (l_bp, r_bp) = self.get_infix_precidence()?;
             if l_bp < exec_prec {
                 return Ok(lhs);
+            }
+            if is_not {
+                self.next()?;
             }
             let op: &str = match self.tokenizer.cur_token {
                 Token::Operator(op, _) => op,
@@ -537,15 +535,31 @@ impl<'a> Parser<'a> {
             self.next()?;
             let mut rhs = self.parse_primary()?;
 
-            let (cur_l_bp, _) = self.get_token_precidence();
-            if self.tokenizer.cur_token.is_binop_token() && r_bp < cur_l_bp {
-                rhs = self.parse_op(r_bp, rhs)?;
+            if self.tokenizer.cur_token.is_binop_token() || self.tokenizer.cur_token.is_not_token()
+            {
+                let (cur_l_bp, _) = self.get_infix_precidence()?;
+                if r_bp < cur_l_bp {
+                    rhs = self.parse_op(r_bp, rhs)?;
+                }
             }
             lhs = ExprAST::Binary(op, Box::new(lhs), Box::new(rhs));
             if is_not {
                 lhs = ExprAST::Unary("not", Box::new(lhs));
-                is_not = false;
             }
+        }
+    }
+
+    // binding powers of the infix operator at the current position, which may be written
+    // as `not OP`
+    fn get_infix_precidence(&self) -> Result<(i32, i32)> {
+        if !self.tokenizer.cur_token.is_not_token() {
+            return Ok(self.get_token_precidence());
+        }
+        match self.tokenizer.peek()? {
+            Token::Operator(op, _) if keyword::is_infix_op(op) => {
+                Ok(InfixOpManager::new().get_precidence(op))
+            }
+            _ => Err(Error::ExpectBinOpToken),
         }
     }
 
